@@ -6,12 +6,16 @@
  * straddle a block boundary; readerpos.h).  Checksums are verified (abstract
  * streaming checksum, kit/vp_cksum.c).
  *
- * Asserted: ldb_reader_read_record returns exactly the records of the
- * reference decoder (logref.h) -- same count, lengths and bytes, in order --
- * and the reporter is called exactly when the reference reports a drop, with
- * the same byte counts and LDB_CORRUPTION; end of file is sticky; the reader
- * terminates within the loop bounds (unwinding failure == violation); every
- * read stays inside the VP_N bytes (CBMC bounds checks / ASan in the replay).
+ * Asserted, call by call for VP_N/7+2 consecutive ldb_reader_read_record
+ * calls (i.e. also after the end of the input): the call returns a record
+ * exactly when the reference reader (logref.h) does, with the same length and
+ * bytes; after every call the reporter has been called exactly as often as the
+ * reference reported a drop, with the same byte counts and LDB_CORRUPTION;
+ * the reader terminates within the loop bounds (unwinding failure ==
+ * violation); every read stays inside the VP_N bytes (CBMC bounds checks /
+ * ASan in the replay).  The reference follows upstream LevelDB for
+ * checksum-valid records of the out-of-range types 5 and 6 (see logref.h,
+ * VP_REF_TYPE_ALIAS); everything else is strict.
  */
 #include "vp.h"
 #include "util/types.h"
@@ -31,11 +35,14 @@
 #define VP_SCRATCH 64
 #endif
 
-#define VP_REF_MAXREC (VP_N / 7 + 1)
 #define VP_REF_MAXLEN (VP_N + 1)
 #define VP_REF_MAXREP (2 * (VP_N / 7) + 4)
 #include "logref.h"
 #include "readerpos.h"
+
+/* read calls compared: more than the bytes can hold records, so that the
+ * behaviour after the end of the input is compared as well */
+#define VP_CALLS (VP_N / 7 + 2)
 
 static int vp_nrep = 0;
 static size_t vp_rep[VP_REF_MAXREP];
@@ -51,7 +58,18 @@ vp_corruption(ldb_reporter_t *reporter, size_t bytes, int status) {
     vp_rep_status_ok = 0;
 }
 
-static struct vp_ref_out vp_ref;
+#ifndef VP_REPLAY
+/* only used by the reader to format a message that is then ignored */
+int
+sprintf(char *s, const char *fmt, ...) {
+  (void)fmt;
+  s[0] = 0;
+  return 0;
+}
+#endif
+
+static struct vp_ref_dec vp_dec;
+static uint8_t vp_ref_rec[VP_REF_MAXLEN];
 
 void
 harness(void) {
@@ -60,15 +78,13 @@ harness(void) {
   ldb_reporter_t rep;
   ldb_buffer_t scratch;
   ldb_slice_t src, rec;
-  int i, ok, n = 0;
+  int i, n = 0, assembled = 0;
   size_t j;
 
   vp_fill(in, VP_N);
 
-  /* ---- reference */
-  vp_ref_decode(in, VP_START, VP_N, &vp_ref, VP_N / 7 + 4);
+  vp_ref_dec_init(&vp_dec, in, VP_START, VP_N);
 
-  /* ---- real reader */
   rep.fname = NULL;
   rep.status = NULL;
   rep.info_log = NULL;
@@ -87,28 +103,25 @@ harness(void) {
   ldb_buffer_init(&scratch);
   ldb_buffer_grow(&scratch, VP_SCRATCH);
 
-  for (i = 0; i < VP_REF_MAXREC + 1; i++) {
-    ok = ldb_reader_read_record(&lr, &rec, &scratch);
-    if (!ok)
-      break;
-    VP_ASSERT(n < vp_ref.nrec, "reader returns no record the reference does not");
-    if (n < vp_ref.nrec && n < VP_REF_MAXREC) {
-      VP_ASSERT(rec.size == vp_ref.rlen[n], "record length == reference");
-      for (j = 0; j < rec.size && j < VP_REF_MAXLEN; j++)
-        VP_ASSERT(rec.data[j] == vp_ref.rdata[n][j], "record byte == reference");
+  for (i = 0; i < VP_CALLS; i++) {
+    size_t rlen;
+    int rok = vp_ref_next(&vp_dec, vp_ref_rec, &rlen, VP_N / 7 + 4);
+    int ok = ldb_reader_read_record(&lr, &rec, &scratch);
+
+    VP_ASSERT((ok != 0) == (rok != 0), "read_record returns a record exactly when the reference does");
+    if (ok && rok) {
+      VP_ASSERT(rec.size == rlen, "record length == reference");
+      for (j = 0; j < rec.size && j < rlen; j++)
+        VP_ASSERT(rec.data[j] == vp_ref_rec[j], "record byte == reference");
+      if (rec.data == scratch.data && rec.size > 0)
+        assembled = 1;
+      n++;
     }
-    n++;
+    VP_ASSERT(vp_nrep == vp_dec.nrep, "reporter called exactly when the reference reports a drop");
   }
 
-  VP_ASSERT(!ok, "reader reaches end of file");
-  VP_ASSERT(n == vp_ref.nrec, "reader returns every record of the reference");
-
-  ok = ldb_reader_read_record(&lr, &rec, &scratch);
-  VP_ASSERT(!ok, "end of file is sticky");
-
-  VP_ASSERT(vp_nrep == vp_ref.nrep, "reporter called exactly when the reference reports a drop");
-  for (i = 0; i < vp_nrep && i < vp_ref.nrep && i < VP_REF_MAXREP; i++)
-    VP_ASSERT(vp_rep[i] == vp_ref.rep[i], "reported byte count == reference");
+  for (i = 0; i < vp_nrep && i < vp_dec.nrep && i < VP_REF_MAXREP; i++)
+    VP_ASSERT(vp_rep[i] == vp_dec.rep[i], "reported byte count == reference");
   VP_ASSERT(vp_rep_status_ok, "drops are reported as LDB_CORRUPTION");
 
   if (n == 0 && vp_nrep == 0)
@@ -119,8 +132,8 @@ harness(void) {
   if (vp_nrep > 0)
     VP_WITNESS("a drop reported");
 #endif
-#if VP_N >= 15 && VP_START == 0
-  if (n == 1 && vp_ref.rlen[0] > 0 && vp_nrep == 0 && in[6] == 2)
+#if VP_N >= 15
+  if (assembled)
     VP_WITNESS("a FIRST..LAST record assembled");
 #endif
 
